@@ -37,6 +37,12 @@ impl MeshEdges<'_> {
             return Err("Mesh must have the topology of a disk".into());
         }
 
+        // The Euler characteristic adds up over components (a closed box and a torus with one
+        // hole together also give 1), so the faces must be connected through shared edges.
+        if self.mesh().get_patches().len() != 1 {
+            return Err("Mesh must be a single connected patch".into());
+        }
+
         // Get the inner vertices
         let i_inner = inner_vertices(self, i_bound)?;
 
